@@ -31,10 +31,24 @@ THEOREMS = ['Props.C14.' + t for t in [
     'single_potential_r1', 'single_potential_r2', 'single_potential_r3',
     'region_classifier_one', 'region_classifier_two', 'region_classifier_three', 'region_classifier_none',
     'region_classifier_total', 'region_equation_valid',
-    'sat_root', 'tsat_root', 'sat_tsat_inverse_partial', 'tsat_outside_range', 'visc_pos', 'b23_near_inverse',
+    'sat_root', 'tsat_root', 'sat_tsat_inverse_partial', 'tsat_sat_inverse_partial', 'tsat_outside_range', 'sat_tsat_critical_end', 'visc_pos', 'b23_near_inverse', 'b23_near_inverse_p',
 ]]
-LEVEL_TEXT = ''
-LEVEL_NOTE = ''
+LEVEL_TEXT = ('Proof (partial): 21 Lean theorems about definitions regenerated from IAPWS97.py on every run, over the reals: all ten '
+              'power_array chains well formed and computing v^k (decide + induction); every index read by the sums is defined; the values of '
+              'cowat / supst / super are the partial derivatives of ONE potential each (Gibbs regions 1, 2, Helmholtz region 3) at every state '
+              'of 0..350 degC x <=100 MPa, 0..800 degC x (0,100 MPa], every density and t>=0 (HasDerivAt, no sorry); the region classifier '
+              'returns 1/2/3/None exactly on the validity domains and the named routine accepts the state; sat and tsat solve the same implicit '
+              'equation and tsat(sat t)=t, sat(tsat p)=p exactly whenever the range tests and branch conditions hold (_partial: branch '
+              'inequalities are hypotheses, evaluated on every explored state); the critical-end failure of the inverse is PROVED '
+              '(sat(tcritical) > pcritical in exact arithmetic); visc > 0 for every density and t >= 0; b23t(b23p t) - t in [0, 1e-9] K and |b23p(b23t p) - p| <= 1e-4 Pa on '
+              '350..590 degC.  NOT proved, sampled by the oracle only: density monotone in pressure, agreement across region boundaries '
+              'within the IAPWS-IF97 tolerances.  Tie: AST translator + bit-for-bit Float validation '
+              '(16k requests / seed, 0 disagreements) + power_array vs hand model.')
+LEVEL_NOTE = ('Trusted: Lean kernel (+propext, Classical.choice, Quot.sound); the translator for the step Float tree -> real tree (the same '
+              'generated definition at two carriers; the Float one is compared bit for bit with CPython every run, visc to 1e-14 because of '
+              'BLAS FMA in np.dot); IEEE rounding of the real code is not verified (theorems are over the reals; the oracle checks the '
+              'doubles against the same tree in 70-digit arithmetic to 1e-10).  p = 0 and t < 0.01 degC are outside the property and not '
+              'examined by the oracle.  Known finding: sat-tsat-inverse:critical-end.')
 TECHNIQUE = ('Lean 4 proof over definitions generated from the Python source (AST translator) + bit-for-bit validation of the '
              'generated definitions over Float against CPython + finite-difference / boundary oracles on the real code')
 ASSUMPTIONS = [
@@ -680,8 +694,31 @@ def oracle(ctx, I, res, rng, scale=1.0):
     # inverse pairs, both end points included
     ts = grid(0.01, tc, n(400, 20000)) + [0.01, tc, nextafter(tc, False), nextafter(0.01, True)] + \
         [rng.uniform(0.01, tc) for _ in range(n(200, 5000))] + [tc - 10 ** -k for k in range(1, 10)]
+    hyp_branch, hyp_guard = [0, 0], [0, 0]
     for t in ts:
         apply('sat_tsat', {'t': t})
+        # hypotheses of sat_tsat_inverse_partial evaluated (in double arithmetic) on this t
+        try:
+            n4 = [float(x) for x in I.nr4]
+            T = t + float(I.tc_k)
+            th = T + n4[8] / (T - n4[9])
+            A = th * th + n4[0] * th + n4[1]
+            B = n4[2] * th * th + n4[3] * th + n4[4]
+            C = n4[5] * th * th + n4[6] * th + n4[7]
+            disc = B * B - 4 * A * C
+            den = -B + math.sqrt(disc) if disc >= 0 else float('nan')
+            beta = 2 * C / den if den else float('nan')
+            E = beta * beta + n4[2] * beta + n4[5]
+            F = n4[0] * beta * beta + n4[3] * beta + n4[6]
+            okb = disc >= 0 and den != 0 and beta >= 0 and 2 * E * th + F >= 0 and E * th + F != 0
+            pv = float(I.pstar4) * beta ** 4
+            okg = 611.213 <= pv <= float(I.pcritical)
+        except Exception:
+            okb = okg = False
+        hyp_branch[1] += 1; hyp_guard[1] += 1
+        hyp_branch[0] += bool(okb); hyp_guard[0] += bool(okg)
+    res.hyp['sat_tsat_inverse_partial: branch conditions hΔ hD hβ hbr hne (saturation temperatures explored)'] = hyp_branch
+    res.hyp['sat_tsat_inverse_partial: hg, tsat accepts sat(t) (false only at the critical end: the known finding)'] = hyp_guard
     plo, phi = ref_psat(0.01) * (1 + 1e-12), float(I.pcritical)
     ps = [plo * (phi / plo) ** (k / (n(400, 20000) - 1)) for k in range(n(400, 20000))]
     ps = [min(max(p, plo), phi) for p in ps] + [plo, phi, nextafter(phi, False)] + [rng.uniform(plo, phi) for _ in range(n(200, 5000))]
